@@ -225,9 +225,10 @@ def run(tier):
         pick = [r for r in rows if r["obs"]["nonexh"] and len(r["arms"]) >= 2][:1] + [r for r in rows if r["form"] == "iflet"][-1:]
         samples += [{"universe": u, "src": r["src"], "observed": {"non_exhaustive": r["obs"]["nonexh"],
                      "counterexample": r["obs"]["cextext"], "irrefutable": r["obs"]["useless"]}} for r in pick]
-    for k in ("accepted", "rejected", "iflet_flagged", "iflet_not_flagged", "cex_nested", "cex_flat", "let", "match"):
-        if not feats.get(k):
-            tool_failure(f"vacuity: no replayed case of kind {k}")
+    missing = [k for k in ("accepted", "rejected", "iflet_flagged", "iflet_not_flagged", "cex_nested", "cex_flat", "let", "match")
+               if not feats.get(k)]
+    if missing and not fails and not only:      # a violation found is a verdict whatever else was (not) seen
+        tool_failure(f"vacuity: no replayed case of kinds {missing}")
     coverage = {
         "states": stats["states"], "transitions": stats["transitions"],
         "traces_validated_against_impl": stats["records"],
